@@ -90,7 +90,8 @@ def run(ctx, report: Report) -> None:
                          f'may legitimately be the empty string (lang=""), which this test confuses with "nothing found"')
 
     r2 = report.rule('C13-R2', 'the <meta> memo is transparent', floor=4)
-    meta_memo_rule(ctx, r2)
+    from .sem import lang_memo_table
+    lang_memo_table(ctx, r2)
 
     # ---- R3 ----------------------------------------------------------------------------------------------
     r3 = report.rule('C13-R3', 'the walk stays inside the element\'s own document', floor=2)
@@ -153,112 +154,3 @@ def run(ctx, report: Report) -> None:
     r6 = report.rule('C13-R6', 'language of an element: nearest lang attribute, else the content-language pragma (decision table)', floor=8)
     from .sem import lang_table
     lang_table(ctx, r6)
-
-
-
-def meta_memo_rule(ctx, r2):
-    """Transparency of the <meta> content-language memo of match_lang (shared with C04)."""
-    src = ctx.src
-    mmod, fn = src.func('css_match.CSSMatch.match_lang')
-    # ---- R2 ----------------------------------------------------------------------------------------------
-    cache = 'self.cached_meta_lang'
-    appends = [c for c in walk_no_nested(fn) if isinstance(c, ast.Call) and unparse(c.func) == f'{cache}.append']
-    if not appends:
-        raise AnalysisError('match_lang: no store into cached_meta_lang found')
-    lookups = [n for n in walk_no_nested(fn) if isinstance(n, ast.For) and unparse(n.iter) == cache]
-    if len(lookups) != 1:
-        raise AnalysisError('match_lang: cache lookup loop not found')
-    lk = lookups[0]
-    cv = lk.target.id
-    keycmp = [c for c in ast.walk(lk) if isinstance(c, ast.Compare) and f'{cv}[0]' in unparse(c)]
-    if not keycmp or not isinstance(keycmp[0].ops[0], ast.Is):
-        r2.violation('match_lang cache key compare', mmod.where(lk), 'the <meta> cache key is not compared by identity')
-        keyvar = None
-    else:
-        c = keycmp[0]
-        keyvar = unparse(c.left) if f'{cv}[0]' in unparse(c.comparators[0]) else unparse(c.comparators[0])
-    hit_assign = [st for st in ast.walk(lk) if isinstance(st, ast.Assign) and unparse(st.value) == f'{cv}[1]']
-    result_var = hit_assign[0].targets[0].id if hit_assign else None
-    r2.instance({'lookup': f'for {cv} in {cache}', 'key_variable': keyvar, 'hit_assigns': result_var}, key='lookup')
-    if result_var is None:
-        r2.violation('match_lang cache hit', mmod.where(lk), 'a cache hit does not assign the cached language to a variable')
-    for a in appends:
-        if not (a.args and isinstance(a.args[0], ast.Tuple) and len(a.args[0].elts) == 2):
-            raise AnalysisError('match_lang: cached_meta_lang entry is not a pair')
-        k, v = a.args[0].elts
-        kk = unparse(k).replace('cast(str, ', '').rstrip(')') if unparse(k).startswith('cast(') else unparse(k)
-        vv = v.args[1] if isinstance(v, ast.Call) and call_name(v) == 'cast' and len(v.args) == 2 else v
-        # which value does the store path itself go on to use? the enclosing condition tells: `if found_lang is None:` => miss
-        par = mmod.parents.get(mmod.parents.get(a))
-        guard = unparse(par.test) if isinstance(par, ast.If) else ''
-        is_miss = f'{result_var} is None' in guard
-        if is_miss:
-            ok = isinstance(vv, ast.Constant) and vv.value is None
-            what = 'miss'
-        else:
-            ok = isinstance(vv, ast.Name) and vv.id == result_var
-            what = 'hit value'
-        key_ok = keyvar is not None and kk == keyvar
-        r2.instance({'store': unparse(a)[:80], 'kind': what, 'stores_what_the_path_uses': ok, 'same_key_variable': key_ok},
-                    key=unparse(a))
-        r2.obligation(ok and key_ok)
-        if not ok:
-            r2.violation(f'match_lang cache store {what} {unparse(v)[:30]}', mmod.where(a),
-                         f'match_lang stores `{unparse(v)}` in the <meta> cache on the {what} path, but that path itself goes on '
-                         f'with {result_var} = {"None (not found)" if is_miss else result_var}: later elements of the same query '
-                         f'read back a different answer than the first one computed')
-        if not key_ok:
-            r2.violation(f'match_lang cache key {kk}', mmod.where(a),
-                         f'match_lang stores under key `{kk}` but looks up with `{keyvar}`')
-    # a hit must not fall through into the <meta> scan again when the cached value is the miss marker
-    scan_ifs = [n for n in walk_no_nested(fn) if isinstance(n, ast.If) and any(x in ast.walk(n) for x in appends)
-                and mmod.parents.get(n) is fn]
-    # key derives from the top of the walk: on every path that leaves the walk with nothing found, keyvar := last visited
-    if keyvar:
-        walk_loops = [n for n in walk_no_nested(fn) if isinstance(n, ast.While) and any(
-            isinstance(c, ast.Call) and call_name(c).endswith('get_parent') for c in ast.walk(n))]
-        if len(walk_loops) != 1:
-            raise AnalysisError('match_lang: ancestor walk loop not found')
-        wl = walk_loops[0]
-        walkvar = None
-        for st in ast.walk(wl):
-            if isinstance(st, ast.Assign) and isinstance(st.value, ast.Call) and call_name(st.value).endswith('get_parent') \
-                    and isinstance(st.targets[0], ast.Name):
-                walkvar = st.targets[0].id
-        lastvars = {st.targets[0].id for st in ast.walk(wl) if isinstance(st, ast.Assign) and isinstance(st.value, ast.Name)
-                    and st.value.id == walkvar and isinstance(st.targets[0], ast.Name)}
-
-        class KeyDom(Domain):
-            """state: (key source, result known None?)"""
-            def is_state(self, x):
-                return isinstance(x, tuple)
-
-            def stmt(self, state, node):
-                src_, res = state
-                if isinstance(node, ast.Assign) and isinstance(node.targets[0], ast.Name):
-                    nm = node.targets[0].id
-                    if nm == keyvar:
-                        src_ = 'walk-top' if isinstance(node.value, ast.Name) and node.value.id in lastvars else unparse(node.value)
-                    if nm == result_var:
-                        res = 'none' if isinstance(node.value, ast.Constant) and node.value.value is None else 'set'
-                return (src_, res)
-
-            def branch(self, state, test):
-                src_, res = state
-                t = unparse(test)
-                if t == f'{result_var} is None':
-                    return ((src_, 'none') if res != 'set' else None, (src_, 'set') if res != 'none' else None)
-                return state, state
-        w = Walker(KeyDom())
-        pre = fn.body[:fn.body.index(wl) + 1]
-        out = w.block(pre, {('initial', 'unknown')})
-        bad = sorted({s[0] for s in out.normal if s[1] != 'set' and s[0] != 'walk-top'})
-        r2.instance({'key_variable': keyvar, 'walk_variable': walkvar, 'states_after_walk': sorted(map(str, out.normal)),
-                     'key_not_from_walk_top': bad}, key='keysrc')
-        r2.obligation(not bad)
-        for b in bad:
-            r2.violation(f'match_lang cache key source {b}', mmod.where(wl),
-                         f'when the ancestor walk ends without a language, the cache key `{keyvar}` still holds `{b}` instead of '
-                         f'the top of the walk: the <meta> result of one document (e.g. the outer page) is served for another '
-                         f'(e.g. an iframe document)')
-
